@@ -153,6 +153,31 @@ Section WFb.
     nonempty (p_blocks p) && forallb (fun e => match e with Some b => wf_block_b b | None => false end) (olist (p_blocks p)).
 End WFb.
 
+Definition regular_action_b (a : action) : bool :=
+  match a_attempts a with Some [] => false | _ => true end.
+Definition regular_actions_b (l : option (list (option action))) : bool :=
+  match l with
+  | Some xs => forallb (fun e => match e with Some a => regular_action_b a | None => false end) xs
+  | None => false
+  end.
+Definition regular_checks_b (c : checks) : bool := regular_actions_b (c_actions c).
+Definition regular_ochecks_b (c : option checks) : bool := match c with None => true | Some c => regular_checks_b c end.
+Definition regular_sequence_b (s : sequence) : bool := regular_actions_b (q_actions s) && nonempty (q_actions s).
+Definition regular_block_b (b : block) : bool :=
+  regular_ochecks_b (b_bypass b) && regular_ochecks_b (b_pre b) && regular_ochecks_b (b_cont b) &&
+  regular_ochecks_b (b_post b) && regular_ochecks_b (b_deferred b) &&
+  match b_seqs b with
+  | Some xs => forallb (fun e => match e with Some s => regular_sequence_b s | None => false end) xs
+  | None => false
+  end.
+Definition regular_plan_b (p : plan) : bool :=
+  regular_ochecks_b (p_bypass p) && regular_ochecks_b (p_pre p) && regular_ochecks_b (p_cont p) &&
+  regular_ochecks_b (p_post p) && regular_ochecks_b (p_deferred p) &&
+  match p_blocks p with
+  | Some xs => forallb (fun e => match e with Some b => regular_block_b b | None => false end) xs
+  | None => false
+  end.
+
 (* ------------------------------------------------------------------ the case *)
 
 Record obs := {
